@@ -7,7 +7,8 @@
 (*          to one writer; w / wexc = emitted bytes or exception class;    *)
 (*          rin = bytes given to the reader before the trailer `trail`     *)
 (*          (the writer's bytes; the spec encoding when the writer failed  *)
-(*          -- TLC checks rin = DerEncAll(vals) itself); rvals = trees     *)
+(*          -- TLC checks rin = DerEncAll(vals) itself; rw = TRUE means    *)
+(*          "the reader was given exactly w"); rvals = trees               *)
 (*          rebuilt from what read_* returned, rexc = exception class;     *)
 (*          rest = get_remaining_data() after the last read; sub_left =    *)
 (*          octets left in every nested reader after its last child;       *)
@@ -32,12 +33,13 @@ TFails(ln) ==
      ELSE
        LET enc == DerEncAll(vals)
            tys == [i \in 1 .. n |-> TypeOf(vals[i])]
-           dec == DecAll(tys, ln.rin \o ln.trail)
+           rin == IF ln.rw THEN ln.w ELSE ln.rin
+           dec == DecAll(tys, rin \o ln.trail)
            v1 == vals[1]
            c1 == Len(Content(v1))
            hdr == <<v1.cls, v1.pc, v1.num, Len(IdOctets(v1.cls, v1.pc, v1.num)) + Len(LenOctets(c1)), c1>>
-       IN (IF ln.rin # enc THEN {"MACHINERY_reader_input_is_not_spec_encoding"} ELSE {})
-          \cup (IF dec # <<TRUE, vals, Len(enc)>> THEN {"MACHINERY_spec_decoder_disagrees"} ELSE {})
+       IN (IF rin # enc /\ ~(ln.rw /\ ln.wexc = "") THEN {"MACHINERY_reader_input_is_not_spec_encoding"} ELSE {})
+          \cup (IF rin = enc /\ dec # <<TRUE, vals, Len(enc)>> THEN {"MACHINERY_spec_decoder_disagrees"} ELSE {})
           \cup (IF ln.wexc # "" THEN {"writer_raises"}
                 ELSE IF ln.w # enc THEN {"writer_bytes_not_minimal_der"} ELSE {})
           \cup (IF ln.rexc # "" THEN {"reader_raises"}
@@ -50,7 +52,7 @@ TFails(ln) ==
 IFails(ln) ==
   LET enc == DerEnc(IntV(ln.v))
   IN (IF ln.wexc # "" THEN {"writer_raises"} ELSE IF ln.w # enc THEN {"writer_bytes_not_minimal_der"} ELSE {})
-     \cup (IF ln.rin # enc THEN {"MACHINERY_reader_input_is_not_spec_encoding"} ELSE {})
+     \cup (IF ~ln.rw /\ ln.rin # enc THEN {"MACHINERY_reader_input_is_not_spec_encoding"} ELSE {})
      \cup (IF ln.rexc # "" THEN {"reader_raises"}
            ELSE (IF ln.rv # ln.v THEN {"reader_value_differs"} ELSE {})
                 \cup (IF ln.left # 0 THEN {"reader_consumption_not_exact"} ELSE {}))
